@@ -880,8 +880,9 @@ class Engine(object):
             except Exception:
                 o.model = None
             return o
-        # unknown: retry with other seeds, then cvc5
-        for seed in (self.seed + 1,):
+        # unknown: retry with another seed (only where no escalation will follow), then cvc5
+        will_escalate = getattr(self, 'escalations_left', 0) > 0 and o.name in self.baseline_names
+        for seed in (() if will_escalate else (self.seed + 1,)):
             s.set('random_seed', seed)
             s.set('timeout', (timeout_ms or self.timeout_ms))
             r = s.check()
@@ -917,11 +918,13 @@ class Engine(object):
                     o.seconds = time.time() - t0
                     return o
         # escalation (DESIGN.md section 1): before an obligation that is known to discharge on the
-        # unchanged tree is reported as failing, retry with a 4x budget in both configurations;
+        # unchanged tree is reported as failing, retry with a 2x budget in both configurations;
         # budgeted per worker so that a broken body with many failing obligations stays affordable
         if getattr(self, 'escalations_left', 0) > 0 and o.name in self.baseline_names:
             self.escalations_left -= 1
-            big = 4 * (timeout_ms or self.timeout_ms)
+            # (every obligation of the committed tree discharges within a few seconds; twice the budget, in both
+            #  configurations and with another seed, is ample and keeps a run on a broken tree within minutes)
+            big = 2 * (timeout_ms or self.timeout_ms)
             for cfg in ({'auto_config': False, 'mbqi': False}, {}):
                 s4 = z3.Solver()
                 s4.set('timeout', big)
